@@ -8,7 +8,7 @@
      d0    : ','-separated node ids initially in the destination, or '-'
      trace : ','-separated event tokens or '-':
              XB.n  XE.n.b  SB.n SE.n SC.n  PB.n.ref PE.n.ref.(k|x)  CB.kind.n  CF.kind.n  TB.n TE.n
-             MB.n  ME.n.(m|s|c)  RT.b
+             MB.n  ME.n.(m|s|c)  RT.b  CX (the caller's context ended: Model/CopyCancel.v)
      mode  : g|t|r, followed by m when the destination is a Mounter and MountFrom is set, optionally
              followed by /<5 bits>: which of PreCopy PostCopy OnCopySkipped OnMounted MountFrom are set
              (default all); the invocations of nil callbacks are inserted by Model/CopyOpt.step_opt
@@ -116,26 +116,28 @@ let () =
                   c_cached0 = List.map nat_of_int (ints sc0); c_xroots = List.map nat_of_int xroots } in
         let d0 = List.map nat_of_int (ints sd0) in
         let toks = if strace = "-" then [] else String.split_on_char ',' strace in
-        let tr = List.map event_of toks in
+        (* CX = the caller's context ended here (Model/CopyCancel.v) *)
+        let tr = List.map (fun t -> if t = "CX" then Cancel else Ev (event_of t)) toks in
         let ms = ref 0 and md = ref 0 in
         let rec go st tr i =
           match tr with
           | [] -> Ok st
           | e :: tr' ->
-            (match step_opt cs g c st e with
+            (match cstep_opt cs g c st e with
              | None -> Error i
              | Some (st', _) ->
-               ms := max !ms (int_of_nat (inflight_src g st'));
-               md := max !md (int_of_nat (inflight_dst g st'));
+               ms := max !ms (int_of_nat (inflight_src g st'.cs_st));
+               md := max !md (int_of_nat (inflight_dst g st'.cs_st));
                go st' tr' (i + 1)) in
         (* pt=<node>: the destination reference existed before the call and pointed at that node *)
         let pretag = List.fold_left (fun acc f ->
           if String.length f > 3 && String.sub f 0 3 = "pt=" then Some (nat_of_int (int_of_string (String.sub f 3 (String.length f - 3)))) else acc) None rest in
         let st0 = let s0 = init c d0 in (match pretag with Some _ -> { s0 with tag = pretag } | None -> s0) in
-        match go st0 tr 0 with
+        match go { cs_st = st0; cs_cancelled = false } tr 0 with
         | Error i ->
           Printf.printf "%s REJ %d %s\n" id i (List.nth toks i)
-        | Ok st ->
+        | Ok cst ->
+          let st = cst.cs_st in
           let ret = match st.returned with Some true -> "1" | Some false -> "0" | None -> "-" in
           let tg = match st.tag with Some t -> string_of_int (int_of_nat t) | None -> "-" in
           let pres d = sort_uniq_ints (List.map int_of_nat (present_nodes g d)) in
